@@ -580,6 +580,12 @@ impl JsValue {
                         }
                     }
                     ExoticObject::StringObj(s) => string_to_number(s.as_str()),
+                    // ToPrimitive of an array is its default join: [] -> "" -> 0, [5] -> 5
+                    ExoticObject::Array { .. } => {
+                        drop(borrowed);
+                        string_to_number(self.to_js_string().as_str())
+                    }
+                    ExoticObject::Date { timestamp } => *timestamp,
                     _ => f64::NAN, // Other objects would need ToPrimitive
                 }
             }
